@@ -9,6 +9,10 @@ import WhVerif.Lemmas.C06NoRef
 import WhVerif.Lemmas.C06Enum
 import WhVerif.Lemmas.C06IndelWindow
 import WhVerif.Lemmas.C06IndelNoRef
+import WhVerif.Lemmas.C06Affine
+import WhVerif.Lemmas.C06Filter
+import WhVerif.Lemmas.C06SecondIndel
+import WhVerif.Lemmas.C06AffineStrip
 /-!
 # C06 — allele detection never assigns the wrong allele to an error-free read: theorems about the model
 
@@ -918,5 +922,525 @@ example : normalize ⟨2, 'A' :: ['C', 'T'], [['A']]⟩ = ⟨2 + 1, ['C', 'T'], 
     ∧ normalize ⟨2, ['A'], ['A' :: ['C', 'T']]⟩ = ⟨2 + 1, [], [['C', 'T']]⟩ :=
   normalize_unshiftable_indel 2 'A' ['C', 'T'] (by decide) (by decide)
 end NonVacuityNoRefIndel
+
+/-! ## re-alignment with affine gap costs (`--affine-gap`) -/
+
+/-- DP correctness: the three-table Gotoh DP of `edit_distance_affine_gap` (without its prefix/suffix shortcut) computes
+the minimum cost over ALL alignments of the query (bases with their mismatch costs) and the other sequence, for every
+gap-start / gap-extend cost — `affineSpec` enumerates the alignments column by column (`alisR`) and prices each
+(`costR`: mismatch cost of the query base; a gap column costs `ge` directly after a gap column of the same kind, else
+`gs`). -/
+theorem affineDP_is_min_over_alignments (gs ge : Nat) (q : QSeq) (r : List Char) :
+    affineDP gs ge q r = affineSpec gs ge q r :=
+  affineDP_eq_affineSpec gs ge q r
+
+/-- … spelt out: the value is attained by an alignment and is a lower bound for every alignment -/
+theorem affineDP_attained_and_minimal (gs ge : Nat) (q : QSeq) (r : List Char) :
+    (∃ cs ∈ alisR q.reverse r.reverse, costR gs ge cs q.reverse r.reverse = affineDP gs ge q r) ∧
+    (∀ cs ∈ alisR q.reverse r.reverse, affineDP gs ge q r ≤ costR gs ge cs q.reverse r.reverse) := by
+  rw [affineDP_eq_T]
+  obtain ⟨t, ht⟩ := T_best_some gs ge q.reverse r.reverse
+  rw [ht]
+  exact ⟨T_best_attained gs ge _ _ t ht, fun cs hcs => T_best_le gs ge _ _ cs hcs t ht⟩
+
+/-- DP correctness of the whole function: `edit_distance_affine_gap` — identical prefixes and suffixes skipped, then the
+three-table DP — is the minimum cost over ALL alignments whenever extending a gap is not dearer than starting one
+(`gap_extend ≤ gap_start`; defaults 7 ≤ 10).  (Equal end bases can be aligned to each other without loss: exchange
+argument on the recurrences, `Tg_best_cons_same`; the front of the strings by the reversal symmetry of the cost,
+`affineSpec_reverse`.)  For `gap_extend > gap_start` the shortcut is NOT minimal: see the example below. -/
+theorem editDistanceAffine_is_min_over_alignments (gs ge : Nat) (hge : ge ≤ gs) (q : QSeq) (r : List Char) :
+    editDistanceAffine gs ge q r = affineSpec gs ge q r :=
+  editDistanceAffine_eq_affineSpec gs ge hge q r
+
+/-- reversing both sequences does not change the minimum alignment cost -/
+theorem affineSpec_reverse_invariant (gs ge : Nat) (q : QSeq) (r : List Char) :
+    affineSpec gs ge q.reverse r.reverse = affineSpec gs ge q r :=
+  affineSpec_reverse gs ge q r
+
+/-- `edit_distance_affine_gap` (with the shortcut) is 0 exactly for a query equal to the other sequence, when the gap
+start cost and all mismatch costs are positive (the defaults: 10 and 15) -/
+theorem editDistanceAffine_zero_iff (gs ge : Nat) (hgs : 0 < gs) (q : QSeq) (r : List Char) (hmm : ∀ x ∈ q, 0 < x.2) :
+    editDistanceAffine gs ge q r = 0 ↔ q.map Prod.fst = r := by
+  constructor
+  · exact editDistanceAffine_eq_zero gs ge hgs q r hmm
+  · intro h; subst h; exact editDistanceAffine_self gs ge q
+
+/-- `realign_sound_exact` for the affine branch: a window whose query IS padded allele `h` and differs from every other
+padded allele is assigned `h` (distance 0 against a positive distance) -/
+theorem realign_affine_sound_exact (f14 : Bool) (p : AffineCfg) (hgs : 0 < p.gs) (hmm : 0 < p.mm) (v : Variant)
+    (query : Seq) (cigar : Cigar) (i consumed : Nat) (qp : Int) (reference : Seq) (oh : Nat) (w : Window)
+    (hsym : isSymbolic v = false) (hw : window f14 v query cigar i consumed qp reference oh = .ok w)
+    (h : Nat) (hh : w.padded[h]? = some w.query)
+    (hne : ∀ k pk, w.padded[k]? = some pk → k ≠ h → pk ≠ w.query) :
+    realign f14 (affineDist p) v none query cigar i consumed qp reference oh = .ok (some h) := by
+  apply realign_sound_strict f14 (affineDist p) v query cigar i consumed qp reference oh w hsym hw h w.query hh
+  intro k pk hk hkh
+  rw [affineDist_self]
+  exact affineDist_pos_of_ne p hgs hmm _ _ (fun e => hne k pk hk hkh e.symm)
+
+/-- the affine analogue of `realign_canonical_correct`: an error-free read in canonical alignment over an isolated
+variant (all variant types, any number of ALT alleles, windows cut by the read end or an N) gets the carried allele
+from the affine re-alignment: cost 0 for the carried allele, a positive cost for every other one -/
+theorem realign_affine_canonical_correct (f14 : Bool) (p : AffineCfg) (hgs : 0 < p.gs) (hmm : 0 < p.mm)
+    (R query : Seq) (pos : Nat) (ref a : Seq) (alts : List Seq) (h : Nat)
+    (hh : (ref :: alts)[h]? = some a) (hdist : ∀ k b, (ref :: alts)[k]? = some b → k ≠ h → b ≠ a)
+    (hsym : ∀ x ∈ alts, x.head? ≠ some '<')
+    (A W1 W2 B : Cigar) (op len d start oh : Nat) (hoh : 0 < oh)
+    (hW1 : W1.all isMatchOp = true) (hW2 : W2.all isMatchOp = true)
+    (hshape : (isMatch op = true ∧ d < len ∧ a.length = ref.length)
+      ∨ (op = 2 ∧ a = [] ∧ len = ref.length ∧ d = 0 ∧ 0 < len)
+      ∨ (op = 1 ∧ ref = [] ∧ len = a.length ∧ d = 0 ∧ 0 < len))
+    (hpos : pos = start + refLen A + refLen W1 + d)
+    (hR : slice R pos ref.length = ref)
+    (hcov : pos + ref.length ≤ start + refLen A + refLen (W1 ++ (op, len) :: W2))
+    (hin : start + refLen A + refLen (W1 ++ (op, len) :: W2) ≤ R.length)
+    (hleft : oh ≤ refLen W1 + d ∨ endsWindow f14 A.reverse = true)
+    (hright : pos + ref.length + oh ≤ start + refLen A + refLen (W1 ++ (op, len) :: W2) ∨ endsWindow f14 B = true)
+    (hq : slice query (qLen A) (qLen (W1 ++ (op, len) :: W2)) =
+      slice (hapOf R pos ref.length a) (start + refLen A) (qLen (W1 ++ (op, len) :: W2))) :
+    realign f14 (affineDist p) ⟨pos, ref, alts⟩ none query (A ++ W1 ++ (op, len) :: (W2 ++ B)) (A ++ W1).length d
+        ((qLen (A ++ W1) + d : Nat) : Int) R oh = .ok (some h) := by
+  obtain ⟨lp, rp, hw⟩ := window_canonical f14 R query pos ref a alts A W1 W2 B op len d start oh hoh hW1 hW2 hshape hpos
+    hR hcov hin hleft hright hq
+  have hs : isSymbolic ⟨pos, ref, alts⟩ = false := by
+    simp only [isSymbolic, List.any_eq_false]
+    intro x hx
+    simpa using hsym x hx
+  apply realign_affine_sound_exact f14 p hgs hmm _ query _ _ _ _ R oh _ hs hw h
+  · simp only [List.getElem?_map, hh, Option.map_some]
+  · intro k pk hk hkh
+    simp only [List.getElem?_map, Option.map_eq_some_iff] at hk
+    obtain ⟨b, hb, rfl⟩ := hk
+    have := hdist k b hb hkh
+    simp only [List.append_assoc, ne_eq, List.append_cancel_left_eq, List.append_cancel_right_eq]
+    exact this
+
+/-- the allele of `realign` with qualities (`realignQ`, both branches) is the allele of `realign` with the branch's
+distance — so every `realign_sound_*` theorem speaks about `realignQ` too -/
+theorem realignQ_allele (f14 : Bool) (aff : Option AffineCfg) (v : Variant) (r : Option (List Nat)) (query : Seq)
+    (cigar : Cigar) (i consumed : Nat) (qp : Int) (reference : Seq) (oh : Nat) :
+    (realignQ f14 aff v r query cigar i consumed qp reference oh).map (·.map Prod.fst)
+      = realign f14 (distOf aff) v r query cigar i consumed qp reference oh := by
+  unfold realignQ realign
+  by_cases hs : isSymbolic v = true
+  · simp [hs, Except.map]
+  · simp only [hs, if_false, Bool.false_eq_true]
+    cases hw : window f14 v query cigar i consumed qp reference oh with
+    | error e => rfl
+    | ok w =>
+      simp only
+      cases hd : decideAllele (distances (distOf aff) r w) with
+      | error e => rfl
+      | ok o => cases o <;> rfl
+
+/-- the quality of the affine branch, as coded: whenever an allele is decided among at least two compared alleles, the
+recorded quality `distances[0][1] - distances[1][1]` (after sorting) is NEGATIVE (finding F42: the sign is reversed) -/
+theorem realignQ_affine_quality_negative (f14 : Bool) (p : AffineCfg) (v : Variant) (r : Option (List Nat)) (query : Seq)
+    (cigar : Cigar) (i consumed : Nat) (qp : Int) (reference : Seq) (oh : Nat) (w : Window) (a : Nat) (ql : Int)
+    (hfs : p.fixSign = false)
+    (hw : window f14 v query cigar i consumed qp reference oh = .ok w)
+    (h2 : 2 ≤ (distances (affineDist p) r w).length)
+    (h : realignQ f14 (some p) v r query cigar i consumed qp reference oh = .ok (some (a, ql))) : ql < 0 := by
+  unfold realignQ at h
+  split at h
+  · cases h
+  · rw [hw] at h
+    simp only [distOf] at h
+    have hlen : (sortDist (distances (affineDist p) r w)).length = (distances (affineDist p) r w).length :=
+      (sortDist_perm _).length_eq
+    unfold decideAllele at h
+    generalize sortDist (distances (affineDist p) r w) = sd at h hlen
+    match sd, hlen with
+    | [], hl => simp at hl; omega
+    | [x], hl => simp at hl; omega
+    | x :: y :: rest, _ =>
+      by_cases hlt : x.2 < y.2
+      · simp only [hlt, if_true, qualityOf, hfs, Except.ok.injEq, Option.some.injEq, Prod.mk.injEq] at h
+        simp at h
+        omega
+      · simp [hlt] at h
+
+/-! ### non-vacuity (affine) -/
+
+section NonVacuityAffine
+/-- reference `GGACTGTT`; deletion `CT>ε` at 3 -/
+private def Rh : Seq := ['G', 'G', 'A', 'C', 'T', 'G', 'T', 'T']
+
+example : affineDP 10 7 [('A', 15), ('C', 15), ('G', 15)] ['A', 'G'] = 10 ∧
+    affineSpec 10 7 [('A', 15), ('C', 15), ('G', 15)] ['A', 'G'] = 10 := by
+  constructor
+  · simp [affineDP, dpCols, nextCol, colGo, initCol, initGo, Cell.best, cmin3, cmin, cadd, gapCost]
+  · rw [← affineDP_is_min_over_alignments]
+    simp [affineDP, dpCols, nextCol, colGo, initCol, initGo, Cell.best, cmin3, cmin, cadd, gapCost]
+
+/-- the shortcut is NOT sound when extending a gap is dearer than starting one (`gs = 1`, `ge = 5`): `A` against `AAA`
+is 2 (`-A-`), the code skips the common prefix first and returns 6 -/
+example : editDistanceAffine 1 5 [('A', 1)] ['A', 'A', 'A'] = 6 ∧ affineDP 1 5 [('A', 1)] ['A', 'A', 'A'] = 2 := by
+  constructor <;>
+    simp [editDistanceAffine, stripPre, stripSuf, affineDP, dpCols, nextCol, colGo, initCol, initGo, Cell.best, cmin3,
+      cmin, cadd, gapCost]
+
+example : editDistanceAffine 10 7 [('A', 15), ('C', 15), ('G', 15), ('A', 15)] ['A', 'G', 'A'] = 10 ∧
+    affineSpec 10 7 [('A', 15), ('C', 15), ('G', 15), ('A', 15)] ['A', 'G', 'A'] = 10 := by
+  have h := editDistanceAffine_is_min_over_alignments 10 7 (by decide) [('A', 15), ('C', 15), ('G', 15), ('A', 15)] ['A', 'G', 'A']
+  have h1 : editDistanceAffine 10 7 [('A', 15), ('C', 15), ('G', 15), ('A', 15)] ['A', 'G', 'A'] = 10 := by
+    simp [editDistanceAffine, stripPre, stripSuf, affineDP, dpCols, nextCol, colGo, initCol, initGo, Cell.best, cmin3, cmin,
+      cadd, gapCost]
+  exact ⟨h1, by rw [← h, h1]⟩
+
+example : editDistanceAffine 10 7 [('A', 15), ('C', 15)] ['A', 'C'] = 0 :=
+  (editDistanceAffine_zero_iff 10 7 (by decide) _ _ (by decide)).2 rfl
+
+/-- a read carrying the deletion, `2S 3M 2D 3M` at 0, default affine costs -/
+example : realign true (affineDist ⟨10, 7, 15, false⟩) ⟨3, ['C', 'T'], [[]]⟩ none ['T', 'T', 'G', 'G', 'A', 'G', 'T', 'T']
+    ([(4, 2)] ++ [(0, 3)] ++ (2, 2) :: ([(0, 3)] ++ [])) ([(4, 2)] ++ [(0, 3)]).length 0
+    ((qLen ([(4, 2)] ++ [(0, 3)]) + 0 : Nat) : Int) Rh 2 = .ok (some 1) :=
+  realign_affine_canonical_correct true ⟨10, 7, 15, false⟩ (by decide) (by decide) Rh _ 3 ['C', 'T'] [] [[]] 1 rfl
+    (by intro k b hk hkh; match k, hk with
+      | 0, hk => simp at hk; subst hk; decide
+      | 1, _ => exact absurd rfl hkh
+      | k + 2, hk => simp at hk)
+    (by decide) [(4, 2)] [(0, 3)] [(0, 3)] [] 2 2 0 0 2 (by decide) (by decide) (by decide)
+    (Or.inr (Or.inl ⟨rfl, rfl, rfl, rfl, by decide⟩)) (by decide) (by decide) (by decide) (by decide)
+    (Or.inl (by decide)) (Or.inl (by decide)) (by decide)
+end NonVacuityAffine
+
+/-! ## which alignments reach detection (`_usable_alignments`, `SampleBamReader.fetch`) and what a read is made of -/
+
+/-- a primary alignment (not supplementary, not secondary, not flagged unmapped or duplicate) with mapping quality at
+least the threshold passes the filter of `_usable_alignments` (as the code is: `skipNoSeq = false`) -/
+theorem usable_primary_never_filtered (cfg : ReadCfg) (a : Aln) (hns : cfg.skipNoSeq = false)
+    (hsupp : a.supplementary = false) (hsec : a.secondary = false) (hunm : a.unmapped = false)
+    (hdup : a.duplicate = false) (hmq : cfg.mapqThreshold ≤ a.mapq) : usable cfg a = true := by
+  rw [usable_iff]; simp [hsupp, hsec, hunm, hdup, hmq, hns]
+
+/-- … and is delivered by `_usable_alignments` (one BAM, no regions): with `--ignore-read-groups` (`sample = none`)
+always, else when its RG tag is one of the sample's read groups -/
+theorem usable_stream_keeps_primary (cfg : ReadCfg) (s : Source) (sample : Option String) (a : Aln) (ha : a ∈ s.alns)
+    (hus : usable cfg a = true)
+    (hsm : sample = none ∨ ∃ sm ids g, sample = some sm ∧ s.groupsOf sm = some ids ∧ a.rg = some g ∧ ids.contains g = true) :
+    Except.ok a ∈ usableStream cfg [s] sample none := by
+  simp only [usableStream, Option.getD_none, usableGo, List.append_nil, mem_usableOfRegion, List.any_nil, fetchAll, hus,
+    and_true, true_and]
+  rcases hsm with rfl | ⟨sm, ids, g, rfl, hg, hrg, hc⟩
+  · simp only [fetchSource, List.mem_map]
+    exact ⟨a, List.mem_filter.2 ⟨ha, overlapsRegion_all a⟩, rfl⟩
+  · simp only [fetchSource, hg, List.mem_filterMap]
+    have hgm : g ∈ ids := by simpa using hc
+    exact ⟨a, List.mem_filter.2 ⟨ha, overlapsRegion_all a⟩, by simp [rgTest, hrg, hgm]⟩
+
+/-- the filter is an order-preserving selection: what reaches detection (one BAM, any one region) is a sublist of the
+file's alignments -/
+theorem usable_stream_sublist (cfg : ReadCfg) (s : Source) (sample : Option String) (r : Region) :
+    (oks (usableStream cfg [s] sample (some [r]))).Sublist s.alns := by
+  simp only [usableStream, Option.getD_some, usableGo, List.append_nil, fetchAll]
+  exact List.Sublist.trans (oks_filter_sublist _ _) (fetchSource_sublist _ s sample r)
+
+/-- every alignment that reaches detection — any number of BAM files, any regions — has passed the filter: it is not
+secondary, not flagged unmapped, a duplicate only with `duplicates`, supplementary only with `use_supplementary`, and
+its mapping quality is at least the threshold -/
+theorem usable_stream_flags (cfg : ReadCfg) (sources : List Source) (sample : Option String)
+    (regions : Option (List Region)) (a : Aln) (h : Except.ok a ∈ usableStream cfg sources sample regions) :
+    a.secondary = false ∧ a.unmapped = false ∧ (a.duplicate = true → cfg.duplicates = true) ∧
+    (a.supplementary = true → cfg.useSupplementary = true) ∧ cfg.mapqThreshold ≤ a.mapq := by
+  have := (usable_iff cfg a).1 (mem_usableGo cfg sources sample [] _ a h)
+  exact ⟨this.2.2.1, this.2.2.2.1, this.2.2.2.2.1, this.1, this.2.1⟩
+
+/-- the filter is idempotent: run on its own output (one BAM, no regions, no error) it delivers the same alignments -/
+theorem usable_stream_idempotent (cfg : ReadCfg) (s : Source) (sample : Option String)
+    (hne : firstError (usableStream cfg [s] sample none) = none) :
+    usableStream cfg [{ s with alns := oks (usableStream cfg [s] sample none) }] sample none
+      = usableStream cfg [s] sample none := by
+  have hall : ∀ (l : List (Except RErr Aln)), firstError l = none → l = (oks l).map .ok := by
+    intro l
+    induction l with
+    | nil => intro _; rfl
+    | cons x l ih =>
+      intro h
+      cases x with
+      | error e => simp [firstError] at h
+      | ok b => simp only [firstError] at h; simp only [oks, List.map_cons]; rw [← ih h]
+  have hst := hall _ hne
+  generalize hS : usableStream cfg [s] sample none = st at hst hne
+  have hmem : ∀ a ∈ oks st, Except.ok a ∈ usableStream cfg [s] sample none := by
+    intro a ha; rw [hS]; exact (mem_oks _ _).1 ha
+  simp only [usableStream, Option.getD_none, usableGo, List.append_nil, fetchAll] at hmem ⊢
+  conv => rhs; rw [hst]
+  have hfil : ∀ (l : List Aln), (∀ a ∈ l, overlapsRegion a (0, none) = true) → l.filter (overlapsRegion · (0, none)) = l := by
+    intro l hl; exact List.filter_eq_self.2 hl
+  cases sample with
+  | none =>
+    simp only [fetchSource] at hmem ⊢
+    rw [hfil _ (fun a _ => overlapsRegion_all a)]
+    unfold usableOfRegion
+    apply List.filter_eq_self.2
+    intro x hx
+    simp only [List.mem_map] at hx
+    obtain ⟨a, ha, rfl⟩ := hx
+    have := (mem_usableOfRegion _ _ _ _).1 (hmem a ha)
+    simp [this.2.2]
+  | some sm =>
+    simp only [fetchSource] at hmem ⊢
+    cases hg : s.groupsOf sm with
+    | none =>
+      exfalso
+      rw [← hS] at hne
+      simp [usableStream, usableGo, fetchAll, fetchSource, hg, usableOfRegion, firstError] at hne
+    | some ids =>
+      have hg' : Source.groupsOf { s with alns := oks st } sm = some ids := by
+        simpa [Source.groupsOf] using hg
+      simp only [hg, hg'] at hmem ⊢
+      rw [hfil _ (fun a _ => overlapsRegion_all a)]
+      have hfm : (oks st).filterMap (rgTest cfg.tolerateNoRG ids) = (oks st).map .ok := by
+        have : ∀ l : List Aln, (∀ a ∈ l, rgTest cfg.tolerateNoRG ids a = some (.ok a)) →
+            l.filterMap (rgTest cfg.tolerateNoRG ids) = l.map .ok := by
+          intro l hl
+          induction l with
+          | nil => rfl
+          | cons a l ih =>
+            simp only [List.filterMap_cons, hl a (by simp), List.map_cons]
+            rw [ih (fun b hb => hl b (List.mem_cons_of_mem _ hb))]
+        apply this
+        intro a ha
+        have := ((mem_usableOfRegion _ _ _ _).1 (hmem a ha)).1
+        simp only [List.mem_filterMap] at this
+        obtain ⟨b, _, hb⟩ := this
+        have hba : b = a := by
+          unfold rgTest at hb
+          cases h : b.rg with
+          | none => simp [h] at hb
+          | some g => simp [h] at hb; exact hb.2
+        rw [hba] at hb; exact hb
+      rw [hfm]
+      unfold usableOfRegion
+      apply List.filter_eq_self.2
+      intro x hx
+      simp only [List.mem_map] at hx
+      obtain ⟨a, ha, rfl⟩ := hx
+      have := (mem_usableOfRegion _ _ _ _).1 (hmem a ha)
+      simp [this.2.2]
+
+/-- a filtered alignment contributes nothing, part 1: `ReadSetReader.read` depends on the BAM files only through the
+stream of alignments that pass the filter — two inputs with the same stream give the same reads -/
+theorem filtered_alignment_contributes_nothing (cfg : ReadCfg) (sources sources' : List Source) (sample : Option String)
+    (regions : Option (List Region)) (variants : List Variant) (reference : Option Seq)
+    (h : usableStream cfg sources sample regions = usableStream cfg sources' sample regions) :
+    readModel cfg sources sample regions variants reference = readModel cfg sources' sample regions variants reference := by
+  simp only [readModel, h]
+
+/-- a filtered alignment contributes nothing, part 2 (provenance): every allele of every read that
+`ReadSetReader.read` returns was detected — by `detect_alleles_by_alignment` / `_detect_alleles` — on an alignment that
+passed the filter and has the read's name and file; and the read carries the name of a primary alignment that passed
+the filter -/
+theorem read_alleles_from_usable_alignments (cfg : ReadCfg) (sources : List Source) (sample : Option String)
+    (regions : Option (List Region)) (variants : List Variant) (reference : Option Seq) (reads : List ReadOut)
+    (h : readModel cfg sources sample regions variants reference = .ok reads) (r : ReadOut) (hr : r ∈ reads) :
+    (∃ a, Except.ok a ∈ usableStream cfg sources sample regions ∧ a.name = r.name ∧ a.sourceId = r.sourceId ∧
+      a.supplementary = false) ∧
+    ∀ y ∈ r.variants, ∃ a i det idx, Except.ok a ∈ usableStream cfg sources sample regions ∧ a.name = r.name ∧
+      a.sourceId = r.sourceId ∧ detectAln cfg variants reference i a = .ok det ∧ (idx, y.2.1, y.2.2) ∈ det ∧
+      y.1 = ((variants[idx]?).map (·.pos)).getD 0 := by
+  unfold readModel at h
+  split at h
+  · cases h
+  · rename_i areads hareads
+    cases h
+    simp only [groupReads, List.mem_filterMap] at hr
+    obtain ⟨g, hg, hm⟩ := hr
+    obtain ⟨⟨prim, hprim, hps, hpn, hpsrc⟩, hvars⟩ := mergeGroupQ_prov _ _ _ _ hm
+    have hinv := groupBy_inv areads
+    constructor
+    · obtain ⟨a, i', det, ha, hn, hsid, hsu, _, _⟩ := toReadsGo_mem _ _ _ _ _ _ _ hareads prim (hinv.1 g hg prim hprim)
+      exact ⟨a, ha, by rw [hpn, hn], by rw [hpsrc, hsid], by rw [← hsu, hps]⟩
+    · intro y hy
+      obtain ⟨aq, haq, hyaq⟩ := hvars y hy
+      obtain ⟨a, i', det, ha, hn, hsid, _, hdet, hv⟩ := toReadsGo_mem _ _ _ _ _ _ _ hareads aq (hinv.1 g hg aq haq)
+      have hk := hinv.2 g hg aq haq prim hprim
+      rw [hv, List.mem_map] at hyaq
+      obtain ⟨t, ht, rfl⟩ := hyaq
+      exact ⟨a, i', det, t.1, ha, by rw [hpn, ← hk.2, hn], by rw [hpsrc, ← hk.1, hsid], hdet, ht, rfl⟩
+
+/-! ### non-vacuity (filter) -/
+
+section NonVacuityFilter
+private instance {ε α} [DecidableEq ε] [DecidableEq α] : DecidableEq (Except ε α) := fun a b =>
+  match a, b with
+  | .ok x, .ok y => if h : x = y then isTrue (by rw [h]) else isFalse (by intro e; cases e; exact h rfl)
+  | .error x, .error y => if h : x = y then isTrue (by rw [h]) else isFalse (by intro e; cases e; exact h rfl)
+  | .ok _, .error _ => isFalse (by intro e; cases e)
+  | .error _, .ok _ => isFalse (by intro e; cases e)
+
+private def cfg0 : ReadCfg := ⟨20, false, false, 100000, 10, none, Fixes.all, false, false⟩
+/-- a primary alignment `5M` at 2 carrying ALT `C` of the SNV `A>C` at 3, mapq 60, read group rg1 -/
+private def good : Aln := ⟨"r1", 0, 60, some "rg1", 2, some [(0, 5)], some ['G', 'C', 'G', 'G', 'G'], none, "", -1, some (-1), 0⟩
+/-- the same template as a SECONDARY alignment carrying REF -/
+private def secondary : Aln := { good with flag := 256, query := some ['G', 'A', 'G', 'G', 'G'] }
+private def lowmq : Aln := { good with name := "r2", mapq := 19 }
+private def src0 : Source := ⟨[("rg1", some "S1"), ("rg2", some "S2")], [good, secondary, lowmq]⟩
+private def src1 : Source := ⟨[("rg1", some "S1"), ("rg2", some "S2")], [good]⟩
+private def snv : Variant := ⟨3, ['A'], [['C']]⟩
+private def Rk : Seq := ['G', 'G', 'G', 'A', 'G', 'G', 'G', 'G', 'G']
+
+example : usable cfg0 good = true :=
+  usable_primary_never_filtered cfg0 good rfl (by decide) (by decide) (by decide) (by decide) (by decide)
+
+example : Except.ok good ∈ usableStream cfg0 [src0] (some "S1") none :=
+  usable_stream_keeps_primary cfg0 src0 (some "S1") good (by decide) (by decide)
+    (Or.inr ⟨"S1", ["rg1"], "rg1", rfl, by decide, rfl, by decide⟩)
+
+example : oks (usableStream cfg0 [src0] (some "S1") (some [(0, none)])) = [good] := by decide
+
+example : secondary.secondary = true ∧ Except.ok secondary ∉ usableStream cfg0 [src0] none none := by
+  refine ⟨by decide, fun h => ?_⟩
+  have := (usable_stream_flags cfg0 [src0] none none secondary h).1
+  revert this; decide
+
+example : usableStream cfg0 [{ src0 with alns := oks (usableStream cfg0 [src0] (some "S1") none) }] (some "S1") none
+    = usableStream cfg0 [src0] (some "S1") none :=
+  usable_stream_idempotent cfg0 src0 (some "S1") (by decide)
+
+/-- the secondary alignment carrying the other allele and the low-mapq alignment change nothing -/
+example : readModel cfg0 [src0] (some "S1") none [snv] (some Rk) = readModel cfg0 [src1] (some "S1") none [snv] (some Rk) :=
+  filtered_alignment_contributes_nothing cfg0 [src0] [src1] (some "S1") none [snv] (some Rk) (by decide)
+
+example : readModel cfg0 [src0] (some "S1") none [snv] (some Rk) = .ok [⟨"r1", 0, 60, 2, "", -1, -1, [(3, 1, 30)]⟩] := by
+  decide
+
+example : realignQ true (some ⟨10, 7, 15, false⟩) snv none ['G', 'C', 'G', 'G', 'G'] [(0, 5)] 0 1 1 Rk 2
+    = .ok (some (1, -15)) := by
+  decide
+end NonVacuityFilter
+
+/-! ## a second deletion / insertion of the same haplotype inside the window (finding F11) -/
+
+/-- the decision of `realign`, exactly: allele `k` is returned if and only if its padded sequence is strictly closer to
+the window's query than every other padded allele (any distance function; no symbolic ALT, all alleles compared) -/
+theorem realign_decision_iff (f14 : Bool) (dist : Seq → Seq → Nat) (v : Variant) (query : Seq) (cigar : Cigar)
+    (i consumed : Nat) (qp : Int) (reference : Seq) (oh : Nat) (w : Window)
+    (hsym : isSymbolic v = false) (hw : window f14 v query cigar i consumed qp reference oh = .ok w) (k : Nat) :
+    realign f14 dist v none query cigar i consumed qp reference oh = .ok (some k) ↔
+      ∃ pk, w.padded[k]? = some pk ∧ ∀ j pj, w.padded[j]? = some pj → j ≠ k → dist w.query pk < dist w.query pj := by
+  constructor
+  · exact realign_sound_only_strict f14 dist v query cigar i consumed qp reference oh w hw k
+  · rintro ⟨pk, hk, hs⟩
+    exact realign_sound_strict f14 dist v query cigar i consumed qp reference oh w hsym hw k pk hk hs
+
+/-- `window_is_padded_allele` with a second indel: the CIGAR is `A ++ W1 ++ [(op, len)] ++ W2a ++ [(uop, L)] ++ W2b ++ B`
+(`W1`, `W2a`, `W2b` runs of M/=/X operations), `(op, len)` the operation of the variant under re-alignment (an M/=/X
+block / its deletion / its insertion; `r0` = reference bases from the variant position to the end of that operation),
+`(uop, L)` a deletion (`uop = 2`) or insertion (`uop = 1`, bases `uq`) carried by the same haplotype that lies entirely
+inside the right half of the window; the read's bases are a copy of that haplotype.  Then the window's query is the
+padded carried allele WITH the second indel applied, while every padded allele has the reference there:
+`query = lp ++ a ++ g ++ uq ++ t`, `padded = [lp ++ x ++ g ++ ur ++ t | x ∈ REF :: ALTs]` with `ur` the `L` deleted
+reference bases (empty for an insertion) and `uq` the inserted bases (empty for a deletion). -/
+theorem window_is_padded_allele_second_indel (f14 : Bool) (R query : Seq) (pos : Nat) (ref a uq : Seq) (alts : List Seq)
+    (A W1 W2a W2b B : Cigar) (op len d uop L start oh r0 : Nat) (hoh : 0 < oh)
+    (hW1 : W1.all isMatchOp = true) (hW2a : W2a.all isMatchOp = true) (hW2b : W2b.all isMatchOp = true)
+    (hu : uop = 2 ∨ uop = 1) (huq : uq.length = if uop = 1 then L else 0)
+    (hshape : (isMatch op = true ∧ d < len ∧ d + ref.length ≤ len ∧ a.length = ref.length ∧ r0 = len - d)
+      ∨ (op = 2 ∧ a = [] ∧ len = ref.length ∧ d = 0 ∧ 0 < len ∧ r0 = len)
+      ∨ (op = 1 ∧ ref = [] ∧ len = a.length ∧ d = 0 ∧ 0 < len ∧ r0 = 0))
+    (hpos : pos = start + refLen A + refLen W1 + d)
+    (hR : slice R pos ref.length = ref)
+    (hin2 : r0 + refLen W2a + (if uop = 2 then L else 0) < ref.length + oh)
+    (hin : pos + r0 + refLen W2a + (if uop = 2 then L else 0) + refLen W2b ≤ R.length)
+    (hleft : oh ≤ refLen W1 + d ∨ endsWindow f14 A.reverse = true)
+    (hright : ref.length + oh ≤ r0 + refLen W2a + (if uop = 2 then L else 0) + refLen W2b ∨ endsWindow f14 B = true)
+    (hq : slice query (qLen A) (refLen W1 + d + (a.length + (r0 - ref.length + refLen W2a) + uq.length) + refLen W2b) =
+      slice R (start + refLen A) (refLen W1 + d) ++ (a ++ slice R (pos + ref.length) (r0 - ref.length + refLen W2a) ++ uq)
+        ++ slice R (pos + r0 + refLen W2a + (if uop = 2 then L else 0)) (refLen W2b)) :
+    ∃ lp t, window f14 ⟨pos, ref, alts⟩ query (A ++ W1 ++ (op, len) :: (W2a ++ (uop, L) :: (W2b ++ B))) (A ++ W1).length d
+        ((qLen (A ++ W1) + d : Nat) : Int) R oh
+      = .ok ⟨lp ++ a ++ slice R (pos + ref.length) (r0 - ref.length + refLen W2a) ++ uq ++ t,
+             (ref :: alts).map (fun x => lp ++ x ++ slice R (pos + ref.length) (r0 - ref.length + refLen W2a)
+               ++ slice R (pos + r0 + refLen W2a) (if uop = 2 then L else 0) ++ t)⟩ := by
+  obtain ⟨lw, m2, hw⟩ := window_second_indel_right f14 R query pos ref a uq alts A W1 W2a W2b B op len d uop L start oh r0
+    hoh hW1 hW2a hW2b hu huq hshape hpos hR hin2 hin hleft hright hq
+  exact ⟨_, _, hw⟩
+
+/-- F11 as a criterion.  In the situation of `window_is_padded_allele_second_indel` (no symbolic ALT), with `g` the
+reference bases between the variant and the second indel, `ur` the deleted reference bases and `uq` the inserted bases
+of the second indel: `realign` (Levenshtein distance) returns allele `k` IF AND ONLY IF `x_k ++ g ++ ur` is strictly
+closer to `a ++ g ++ uq` than `x_j ++ g ++ ur` for every other allele `j` — the paddings to the left and behind the
+second indel cancel.  So the wrong allele `k ≠ h` results exactly when replacing the carried allele by `x_k` AND
+undoing the second indel is cheaper than undoing the second indel alone; a tie gives no allele. -/
+theorem realign_second_indel_criterion (f14 : Bool) (R query : Seq) (pos : Nat) (ref a uq : Seq) (alts : List Seq)
+    (hsym : ∀ x ∈ alts, x.head? ≠ some '<')
+    (A W1 W2a W2b B : Cigar) (op len d uop L start oh r0 : Nat) (hoh : 0 < oh)
+    (hW1 : W1.all isMatchOp = true) (hW2a : W2a.all isMatchOp = true) (hW2b : W2b.all isMatchOp = true)
+    (hu : uop = 2 ∨ uop = 1) (huq : uq.length = if uop = 1 then L else 0)
+    (hshape : (isMatch op = true ∧ d < len ∧ d + ref.length ≤ len ∧ a.length = ref.length ∧ r0 = len - d)
+      ∨ (op = 2 ∧ a = [] ∧ len = ref.length ∧ d = 0 ∧ 0 < len ∧ r0 = len)
+      ∨ (op = 1 ∧ ref = [] ∧ len = a.length ∧ d = 0 ∧ 0 < len ∧ r0 = 0))
+    (hpos : pos = start + refLen A + refLen W1 + d)
+    (hR : slice R pos ref.length = ref)
+    (hin2 : r0 + refLen W2a + (if uop = 2 then L else 0) < ref.length + oh)
+    (hin : pos + r0 + refLen W2a + (if uop = 2 then L else 0) + refLen W2b ≤ R.length)
+    (hleft : oh ≤ refLen W1 + d ∨ endsWindow f14 A.reverse = true)
+    (hright : ref.length + oh ≤ r0 + refLen W2a + (if uop = 2 then L else 0) + refLen W2b ∨ endsWindow f14 B = true)
+    (hq : slice query (qLen A) (refLen W1 + d + (a.length + (r0 - ref.length + refLen W2a) + uq.length) + refLen W2b) =
+      slice R (start + refLen A) (refLen W1 + d) ++ (a ++ slice R (pos + ref.length) (r0 - ref.length + refLen W2a) ++ uq)
+        ++ slice R (pos + r0 + refLen W2a + (if uop = 2 then L else 0)) (refLen W2b))
+    (k : Nat) :
+    realign f14 lev ⟨pos, ref, alts⟩ none query (A ++ W1 ++ (op, len) :: (W2a ++ (uop, L) :: (W2b ++ B))) (A ++ W1).length d
+        ((qLen (A ++ W1) + d : Nat) : Int) R oh = .ok (some k) ↔
+      ∃ xk, (ref :: alts)[k]? = some xk ∧ ∀ j xj, (ref :: alts)[j]? = some xj → j ≠ k →
+        lev (a ++ slice R (pos + ref.length) (r0 - ref.length + refLen W2a) ++ uq)
+            (xk ++ slice R (pos + ref.length) (r0 - ref.length + refLen W2a)
+              ++ slice R (pos + r0 + refLen W2a) (if uop = 2 then L else 0))
+        < lev (a ++ slice R (pos + ref.length) (r0 - ref.length + refLen W2a) ++ uq)
+            (xj ++ slice R (pos + ref.length) (r0 - ref.length + refLen W2a)
+              ++ slice R (pos + r0 + refLen W2a) (if uop = 2 then L else 0)) := by
+  obtain ⟨lp, t, hw⟩ := window_is_padded_allele_second_indel f14 R query pos ref a uq alts A W1 W2a W2b B op len d uop L
+    start oh r0 hoh hW1 hW2a hW2b hu huq hshape hpos hR hin2 hin hleft hright hq
+  have hs : isSymbolic ⟨pos, ref, alts⟩ = false := by
+    simp only [isSymbolic, List.any_eq_false]
+    intro x hx
+    simpa using hsym x hx
+  rw [realign_decision_iff f14 lev _ query _ _ _ _ R oh _ hs hw k]
+  generalize slice R (pos + ref.length) (r0 - ref.length + refLen W2a) = g
+  generalize slice R (pos + r0 + refLen W2a) (if uop = 2 then L else 0) = ur
+  have hcancel : ∀ x y : Seq, lev (lp ++ a ++ g ++ uq ++ t) (lp ++ x ++ g ++ y ++ t) = lev (a ++ g ++ uq) (x ++ g ++ y) := by
+    intro x y
+    have e1 : lp ++ a ++ g ++ uq ++ t = lp ++ ((a ++ g ++ uq) ++ t) := by simp [List.append_assoc]
+    have e2 : lp ++ x ++ g ++ y ++ t = lp ++ ((x ++ g ++ y) ++ t) := by simp [List.append_assoc]
+    rw [e1, e2, lev_append_left, lev_append_right]
+  simp only [List.getElem?_map, Option.map_eq_some_iff]
+  constructor
+  · rintro ⟨pk, ⟨xk, hxk, rfl⟩, hall⟩
+    refine ⟨xk, hxk, ?_⟩
+    intro j xj hxj hjk
+    have := hall j _ ⟨xj, hxj, rfl⟩ hjk
+    rw [hcancel, hcancel] at this
+    exact this
+  · rintro ⟨xk, hxk, hall⟩
+    refine ⟨_, ⟨xk, hxk, rfl⟩, ?_⟩
+    rintro j pj ⟨xj, hxj, rfl⟩ hjk
+    rw [hcancel, hcancel]
+    exact hall j xj hxj hjk
+
+/-! ### non-vacuity (second indel) -/
+
+section NonVacuitySecond
+/-- reference `GGACCTTGGGG…`; insertion `ε>TT` at 5 (after `GGACC`), the haplotype also deletes the `TT` at 5..6 directly
+behind it ("twins": inserting `TT` and deleting the next `TT` is the reference again) -/
+private def Rt : Seq := ['G', 'G', 'A', 'C', 'C', 'T', 'T', 'G', 'G', 'G', 'G', 'G', 'G']
+
+/-- the read `5M 2I 2D 6M` carries the insertion (allele 1) and the deletion; the criterion says REF (allele 0) is
+strictly closest — the WRONG allele (F11) -/
+example : realign true lev ⟨5, [], [['T', 'T']]⟩ none ['G', 'G', 'A', 'C', 'C', 'T', 'T', 'G', 'G', 'G', 'G', 'G', 'G']
+    ([] ++ [(0, 5)] ++ (1, 2) :: ([] ++ (2, 2) :: ([(0, 6)] ++ []))) ([] ++ [(0, 5)]).length 0
+    ((qLen ([] ++ [(0, 5)]) + 0 : Nat) : Int) Rt 3 = .ok (some 0) := by
+  rw [realign_second_indel_criterion true Rt _ 5 [] ['T', 'T'] [] [['T', 'T']] (by decide) [] [(0, 5)] [] [(0, 6)] []
+    1 2 0 2 2 0 3 0 (by decide) (by decide) (by decide) (by decide) (Or.inl rfl) (by decide)
+    (Or.inr (Or.inr ⟨rfl, rfl, rfl, rfl, by decide, rfl⟩)) (by decide) (by decide) (by decide) (by decide)
+    (Or.inl (by decide)) (Or.inl (by decide)) (by decide) 0]
+  refine ⟨[], rfl, ?_⟩
+  intro j xj hj hne
+  match j, hj with
+  | 0, _ => exact absurd rfl hne
+  | 1, hj => simp at hj; subst hj; rw [← levFast_eq_lev, ← levFast_eq_lev]; decide
+  | j + 2, hj => simp at hj
+end NonVacuitySecond
 
 end WhVerif.Props.C06
